@@ -9,6 +9,7 @@ EXPLANATION = (
     "(`db.snapshot()`) cannot contain the transaction's earlier statements. Backward data slice of the snapshot argument in every such function "
     "of the C API / bindings / facade. What the executor then does with the view is not decided."
     " C24.2: the read view of a statement run on a caller-owned transaction traces, in its own frame or through parameters of its callers, to a snapshot() call — never to a field of a long-lived handle."
+    " C24.3: in both write-aware executors every two-input Plan arm recurses write-aware into both inputs, and the two executors agree arm by arm."
 )
 
 EXEC_NAMES = ("execute_mixed", "execute_write", "execute_write_with_rows", "execute_streaming")
